@@ -239,3 +239,128 @@ def run(repo: Repo) -> Result:
         modules=len(repo.modules),
     )
     return res
+
+
+# ---------------------------------------------------------------------------
+# self-test (thorough tier)
+
+
+def selftest(repo: Repo):
+    """AST-computed single edits of one sibling that must be reported, plus
+    behaviour-preserving edits that must stay silent."""
+    from ..selftest import Variant, ast_edit, find_func, Inapplicable
+
+    out = []
+    sigs = _sigs(repo)
+    for a, s in pairs(repo):
+        if s is None or sib.is_delegation(a.node, s.name):
+            continue
+        cls = a.cls.name if a.cls else None
+        rel = a.file
+
+        def mk(kind, a=a, cls=cls, rel=rel):
+            def edit(tree):
+                fn = find_func(tree, cls, a.name)
+                if fn is None:
+                    return False
+                body = fn.body
+                if kind == "delete-stmt":
+                    # delete the first statement that is not a docstring/return/nested def
+                    for i, st in enumerate(body):
+                        if isinstance(st, (ast.Assign, ast.AugAssign, ast.Expr, ast.If, ast.For, ast.With, ast.Try)) and not (
+                            isinstance(st, ast.Expr) and isinstance(st.value, ast.Constant)
+                        ):
+                            # keep it compiling: replace by pass
+                            body[i] = ast.Pass()
+                            return True
+                    return False
+                if kind == "swap-args":
+                    for n in ast.walk(fn):
+                        if isinstance(n, ast.Call) and len(n.args) >= 2 and not any(
+                            isinstance(x, ast.Starred) for x in n.args[:2]
+                        ) and ast.dump(n.args[0]) != ast.dump(n.args[1]):
+                            n.args[0], n.args[1] = n.args[1], n.args[0]
+                            return True
+                    return False
+                if kind == "rename-attr":
+                    for n in ast.walk(fn):
+                        if isinstance(n, ast.Attribute) and isinstance(n.ctx, ast.Load) and n.attr not in ("env",):
+                            n.attr = n.attr + "_x"
+                            return True
+                    return False
+                if kind == "rename-local":  # silent
+                    names = [
+                        n.id for n in ast.walk(fn) if isinstance(n, ast.Name) and isinstance(n.ctx, ast.Store)
+                    ]
+                    params = {x.arg for x in fn.args.args + fn.args.kwonlyargs}
+                    names = [n for n in names if n not in params]
+                    if not names:
+                        return False
+                    old = names[0]
+                    for n in ast.walk(fn):
+                        if isinstance(n, ast.Name) and n.id == old:
+                            n.id = old + "_renamed"
+                    return True
+                return False
+
+            def make():
+                ov = ast_edit(repo, rel, edit)
+                return Variant(
+                    name=f"{kind}:{a.qual}",
+                    overlay=ov,
+                    expect=a.qual if kind != "rename-local" else "",
+                    silent=(kind == "rename-local"),
+                )
+
+            return make
+
+        for kind in ("delete-stmt", "swap-args", "rename-attr"):
+            out.append(mk(kind))
+        if len(out) % 7 == 0:
+            out.append(mk("rename-local"))
+
+    # SIB-MRO: a subclass overriding only the sync member of a real pair
+    def mro_variant():
+        def edit(tree):
+            for n in ast.walk(tree):
+                if isinstance(n, ast.ClassDef) and n.name == "FutureContext":
+                    n.body.append(
+                        ast.parse(
+                            "def get_template(self, name):\n    return self.env.get_template(name.lower())\n"
+                        ).body[0]
+                    )
+                    return True
+            return False
+
+        return Variant("mro:sync-only-override", ast_edit(repo, "liquid/context.py", edit), "SIB-MRO|liquid.context.FutureContext")
+
+    out.append(mro_variant)
+
+    # SIB-ORPHAN: a new async method with no sync sibling
+    def orphan_variant():
+        def edit(tree):
+            for n in ast.walk(tree):
+                if isinstance(n, ast.ClassDef) and n.name == "RenderContext":
+                    n.body.append(ast.parse("async def frob_async(self):\n    return 1\n").body[0])
+                    return True
+            return False
+
+        return Variant("orphan:async-without-sync", ast_edit(repo, "liquid/context.py", edit), "SIB-ORPHAN")
+
+    out.append(orphan_variant)
+
+    # SIB-EXT: a built-in filter class grows filter_async
+    def ext_variant():
+        def edit(tree):
+            for n in ast.walk(tree):
+                if isinstance(n, ast.ClassDef) and n.name == "BaseTranslateFilter":
+                    n.body.append(
+                        ast.parse("async def filter_async(self, left, *a, **k):\n    return left\n").body[0]
+                    )
+                    return True
+            return False
+
+        return Variant("ext:builtin-filter_async", ast_edit(repo, "liquid/extra/filters/translate.py", edit), "SIB-EXT")
+
+    out.append(ext_variant)
+    return out
